@@ -7,6 +7,7 @@ CONC = 'mutual exclusion of std::sync::RwLock (each ActivePeers method body is o
 PROPERTIES = {
     'C04': dict(
         units=['active_peers', 'enum_cm'],
+        extra=[validate.history_c04],
         canaries=['active_peers'],
         scope='every clause of C04 for every SEQUENTIAL history of operations on the active-peer set: each real mutating function is '
               'proved equal to a spec transition from an arbitrary pre-state; lemmas prove that every transition preserves the '
@@ -24,6 +25,7 @@ PROPERTIES = {
         units=['active_peers', 'kani_tiebreak', 'enum_cm'],
         canaries=['active_peers'],
         counterexample=cex.cex_c05,
+        extra=[validate.history_c04],
         scope='the tie-break keeps the connection dialed by the greater PeerId: proved for the real function over all 2^512 id pairs '
               '(Kani, full domain, real derived Ord) and as a Verus contract; convergence lemmas over the contract of add(): both nodes, '
               'both arrival orders -> same surviving dialer, exactly the loser closed, events New or New,Lost(Requested),New, late exit of '
@@ -127,6 +129,7 @@ PROPERTIES = {
     'C03': dict(
         units=['active_peers', 'crypto'],
         canaries=['dialing'],
+        extra=[validate.history_c03],
         scope='glue only: (a) the pinning verifier accepts a server certificate only if its public key is the expected identity AND the base verifier accepts it, '
               'and proof of key possession (handshake signature) is delegated unchanged to rustls restricted to Ed25519; (b) a dial with an expected identity goes through '
               'connect_with_expected_peer_id(addr, id), one without through connect(addr); (c) a successful result registers the connection in the active-peer set and THEN answers '
@@ -139,6 +142,7 @@ PROPERTIES = {
     'C09': dict(
         units=['active_peers'],
         canaries=['active_peers', 'dialing'],
+        extra=[validate.history_c09],
         scope='ONE sentence of three: an explicit disconnect removes the peer locally at once (one critical section), closes that connection and appends exactly '
               'LostPeer(peer, Requested); afterwards peer(p) is None and rpc(p, _) fails until a new connection is registered; every way a connection can end is mapped '
               'to its documented reason and a handler exit removes exactly its own entry.',
